@@ -14,6 +14,8 @@ type Term struct {
 	Val  uint64 // for const
 	Name string // for var
 	id   int
+	evGen int64 // evaluation cache (eval.go): generation stamp and value
+	evVal uint64
 }
 
 var termCount int64
